@@ -55,7 +55,62 @@ def strip_iter(n):
     return n
 
 
-class HandlerTranslator(Translator):
+class ConnTranslator(Translator):
+    """expression forms of `connection.py` that stand for something outside the translated fragment (function parameters
+    of the generated definitions): the number of placeholders of a statement text (`REGEX_PARAM`, pinned by C06's source
+    facts) and the column definition sent for a parameter placeholder"""
+
+    def call(self, n, c, binds, want=None):
+        f = n.func
+        if isinstance(f, ast.Name) and f.id == "len" and len(n.args) == 1 and isinstance(n.args[0], ast.Call) \
+                and ast.unparse(n.args[0].func) == "REGEX_PARAM.findall" and len(n.args[0].args) == 1:
+            a, ta = self.ex(n.args[0].args[0], c, binds)
+            if ta != STR:
+                raise Untranslatable("REGEX_PARAM.findall on " + lean_type(ta))
+            return "(count_params %s)" % a, NAT
+        if ast.unparse(f) == "packets.make_column_definition_41":
+            kw = {k.arg: ast.unparse(k.value) for k in n.keywords}
+            if n.args or kw != {"server_charset": "self.server_charset", "name": "'?'"}:
+                raise Untranslatable("column definition " + ast.unparse(n)[:80])
+            return "(param_coldef self.server_charset)", BYTES
+        if isinstance(f, ast.Attribute) and isinstance(f.value, ast.Name) and f.value.id == "packets" and ("packets." + f.attr) in self.fns:
+            return self.call_fn(self.fns["packets." + f.attr], n.args, n.keywords, c, binds)
+        return super().call(n, c, binds, want)
+
+    def generator_as_list(self, name, lean_name, self_type, elem=BYTES):
+        """a generator method (`yield e` …) as the function that returns the list of what it yields, in order"""
+        f = self.find(name)
+        import copy
+        g = copy.deepcopy(f)
+
+        class Y(ast.NodeTransformer):
+            def visit_Expr(self, node):
+                if isinstance(node.value, ast.Yield) and node.value.value is not None:
+                    return ast.copy_location(ast.Expr(value=ast.Call(func=ast.Attribute(value=ast.Name(id="yielded", ctx=ast.Load()), attr="append", ctx=ast.Load()),
+                                                                      args=[node.value.value], keywords=[])), node)
+                return node
+        g = Y().visit(g)
+        for x in ast.walk(g):
+            if isinstance(x, (ast.Yield, ast.YieldFrom)):
+                raise Untranslatable("yield in an expression position in " + name)
+        g.body = [ast.AnnAssign(target=ast.Name(id="yielded", ctx=ast.Store()), annotation=ast.parse("List[bytes]", mode="eval").body,
+                                value=ast.List(elts=[], ctx=ast.Load()), simple=1)] + list(g.body) + [ast.Return(value=ast.Name(id="yielded", ctx=ast.Load()))]
+        ast.fix_missing_locations(g)
+        saved = self.find
+        self.find = lambda nm: g if nm == name else saved(nm)
+        try:
+            text = self.function(name, lean_name, self_type=self_type, ret=T_list(elem))
+        finally:
+            self.find = saved
+        # callers pass on the parameters that stand for the outside
+        head = text[text.index("def %s" % lean_name):].split(":=")[0]
+        extras = [pn for pn, _ in getattr(self, "extra_params", []) if "(%s :" % pn in head]
+        if extras:
+            self.fns[name].lean = "%s %s" % (lean_name, " ".join(extras))
+        return text
+
+
+class HandlerTranslator(ConnTranslator):
     """statements of a coroutine handler in the monad `Except (Connection S)` (see the module docstring)"""
     REG = "prepared_stmts"
 
@@ -216,6 +271,22 @@ class HandlerTranslator(Translator):
             return self.wrap(binds, "match %s.%s with\n| none => %s\n| some %s =>\n%s" % (var, fld, self.m_fail(), bufs, ind(body)))
         if isinstance(s, ast.AsyncFor):
             return self.async_for(s, c, cont)
+        # for packet in <list of packets>: await self.stream.write(packet, drain=…)
+        if isinstance(s, ast.For) and not s.orelse and isinstance(s.target, ast.Name) and len(s.body) == 1 \
+                and isinstance(s.body[0], ast.Expr) and isinstance(s.body[0].value, ast.Await) and isinstance(s.body[0].value.value, ast.Call) \
+                and ast.unparse(s.body[0].value.value.func) == "self.stream.write" and len(s.body[0].value.value.args) == 1 \
+                and ast.unparse(s.body[0].value.value.args[0]) == s.target.id:
+            call = s.body[0].value.value
+            drain = "true"
+            for kw in call.keywords:
+                if kw.arg == "drain" and isinstance(kw.value, ast.Constant) and isinstance(kw.value.value, bool):
+                    drain = "true" if kw.value.value else "false"
+                else:
+                    raise Untranslatable("stream.write keyword " + ast.unparse(kw))
+            binds, e, t = self.expr(s.iter, c)
+            if t != T_list(BYTES):
+                raise Untranslatable("for over " + lean_type(t))
+            return self.wrap(binds, "let self := { self with out := self.out ++ (%s).map (fun p => Ev.write p %s) }\n%s" % (e, drain, cont(c)))
         return super().block(stmts, c, k)
 
     def async_for(self, s, c, cont):
@@ -322,8 +393,12 @@ def translate_handlers():
              "ServerStatus": {nm: int(m) for nm, m in ServerStatus.__members__.items()}}
     records = {
         "PreparedStatement": dataclass_fields(Pr.PreparedStatement, {"cursor": T_opt(GEN)}),
+        "seq": [("size", T_opt(NAT), None), ("value", NAT, None)],
+        # `client_charset` / `server_charset` are properties of Connection (the session variables behind them are C15's
+        # subject); here they are read like fields
         "Connection": [("capabilities", NAT, None), ("status_flags", NAT, None), ("prepared_stmts", T_dict(NAT, T_rec("PreparedStatement")), None),
-                       ("out", ("abs", "(List Ev)"), None)],
+                       ("out", ("abs", "(List Ev)"), None), ("prepared_stmt_seq", T_rec("seq"), None), ("client_charset", CS, None),
+                       ("server_charset", CS, None)],
         "ComStmtSendLongData": dataclass_fields(P.ComStmtSendLongData),
         "ComStmtFetch": dataclass_fields(P.ComStmtFetch),
         "ComStmtReset": dataclass_fields(P.ComStmtReset),
@@ -340,16 +415,34 @@ def translate_handlers():
            "variable {S : Type} [DecidableEq S]", "",
            "/-- what a handler does to the outside, in the order it does it -/",
            "inductive Ev\n  | write (pkt : Bytes) (drain : Bool)\n  | drain\n  | session_reset\nderiving DecidableEq, Repr\n"]
-    pure = Translator(Cn, enums, records)
+    from mysql_mimic import utils as U
+    csrc = inspect.getsource(Cn.Connection)
+    for prop in ("client_charset", "server_charset"):
+        if "@property\n    def %s(self) -> CharacterSet:" % prop not in csrc:
+            raise Untranslatable("Connection.%s is no longer a CharacterSet property" % prop)
+    if "self.prepared_stmt_seq = seq(self._MAX_PREPARED_STMT_ID)" not in csrc or "self.prepared_stmts: Dict[int, PreparedStatement] = {}" not in csrc:
+        raise Untranslatable("Connection.__init__ no longer creates the statement registry and its id sequence as expected")
+    pure = ConnTranslator(Cn, enums, records)
     pure.flags = {"Capabilities", "ServerStatus"}
     pure.fns.update(lib_fns())
+    pure.extra_params = [("count_params", "S → Nat"), ("param_coldef", "Nat → Bytes")]
     conn = T_rec("Connection")
+    tu = Translator(U, {}, records)
+    out.append(tu.record_decl("seq"))
+    out.append(tu.function("seq.__next__", "seq_next", self_type=T_rec("seq"), ret=NAT, mutating=True))
+    pure.fns.update(tu.fns)
     out.append(pure.record_decl("PreparedStatement"))
     out.append(pure.record_decl("Connection"))
+    out.append("/-- `Connection._MAX_PREPARED_STMT_ID`, the size of the statement-id sequence -/\ndef maxPreparedStmtId : Nat := %d\n" % Cn.Connection._MAX_PREPARED_STMT_ID)
+    tp = Translator(P, enums, records)
+    tp.fns.update(lib_fns())
+    out.append(tp.function("make_com_stmt_prepare_ok"))
+    pure.fns["packets.make_com_stmt_prepare_ok"] = tp.fns["make_com_stmt_prepare_ok"]
     h = HandlerTranslator(Cn, enums, records)
     h.flags = pure.flags
     h.fns = pure.fns
     h.out = pure.out
+    h.extra_params = pure.extra_params
     make_ok = py_sig(P, "make_ok", "Mimic.Extracted.PacketsCode.make_ok")
     make_eof = py_sig(P, "make_eof", "Mimic.Extracted.PacketsCode.make_eof")
     out.append(h.passthrough("Connection.ok", "ok", make_ok, ["capabilities", "status_flags"]))
@@ -361,12 +454,13 @@ def translate_handlers():
         fn = py_sig(P, nm, PC + nm + " (S := S)")
         fn.partial = True
         pure.fns["packets." + nm] = fn
-    for nm, ln in (("handle_stmt_fetch", "handle_stmt_fetch"), ("handle_stmt_reset", "handle_stmt_reset"), ("handle_stmt_close", "handle_stmt_close"),
+    out.append(pure.generator_as_list("Connection.com_stmt_prepare_response", "com_stmt_prepare_response", conn))
+    for nm, ln in (("handle_stmt_prepare", "handle_stmt_prepare"), ("handle_stmt_fetch", "handle_stmt_fetch"), ("handle_stmt_reset", "handle_stmt_reset"), ("handle_stmt_close", "handle_stmt_close"),
                    ("handle_stmt_send_long_data", "handle_stmt_send_long_data")):
         out.append(h.handler("Connection." + nm, ln))
     out.append("def translated : List String := [%s]" % ", ".join('"%s"' % n for n in (
         "Connection.ok", "Connection.eof", "Connection.deprecate_eof", "Connection.ok_or_eof", "Connection.get_stmt",
-        "Connection.handle_stmt_fetch", "Connection.handle_stmt_reset", "Connection.handle_stmt_close", "Connection.handle_stmt_send_long_data")))
+        "Connection.com_stmt_prepare_response", "Connection.handle_stmt_prepare", "Connection.handle_stmt_fetch", "Connection.handle_stmt_reset", "Connection.handle_stmt_close", "Connection.handle_stmt_send_long_data")))
     out.append("end Mimic.Extracted.HandlersCode")
     return "\n".join(out) + "\n"
 
